@@ -253,6 +253,32 @@ def no_wide_products(ctx):
     ctx.ok("no-64bit-products", "E-TYPE overflow", "-", "%d functions scanned, %d audited product(s)" % (n_fn, n_ok))
 
 
+def rate_definitions(ctx):
+    """io_cost_rate and pg_scan_rate are 'this tick's cumulative counter minus the archived one' (0 for the I/O rate when nothing is
+    archived yet) - a plain difference, whatever its sign.  kill_by_io_cost and kill_by_pg_scan rank by these values and keep only
+    positive ones, so a getter that turns a negative difference into something else changes who is eligible (shared by C09 and C15)."""
+    P, cg = ctx.prog, ctx.cg
+    shapes = {
+        "getIoCostRate": r"^\(!this->archive_\.io_cost_cumulative(\.operator bool\(\))? \? 0(\.0)? : \(\*this->io_cost_cumulative\(nullptr\) - \*this->archive_\.io_cost_cumulative\)\)$",
+        "getPgScanRate": r"^\(\*this->pg_scan_cumulative\(nullptr\) - \*this->archive_\.pg_scan_cumulative\)$",
+    }
+    DIFF = {"getIoCostRate": r"^\(\*this->io_cost_cumulative\(nullptr\) - \*this->archive_\.io_cost_cumulative\)$",
+            "getPgScanRate": shapes["getPgScanRate"]}
+    for nm, rx in shapes.items():
+        f = ctx.fn1("Oomd::CgroupContext::" + nm)
+        last = [ret_text(f, r) for r in returns(f) if "archive_" in ret_text(f, r)]
+        ok_ = len(last) == 1 and re.match(rx, last[0]) is not None
+        if not ok_ and len(last) == 1 and re.match(DIFF[nm], last[0]) is not None and nm == "getIoCostRate":
+            # if/return spelling of the same table: the difference where an archived value exists, 0 where it does not
+            ft_ = Flow(P, f, cg=cg)
+            fld = "this->archive_.io_cost_cumulative"
+            r_diff = [r for r in returns(f) if "archive_" in ret_text(f, r)][0]
+            zero = [r for r in returns(f) if ret_text(f, r) in ("0", "0.0", "std::optional(0.0)", "std::optional(0)")]
+            has = lambda g_, pol: any(p is pol and k in (fld, fld + ".has_value()", fld + ".operator bool()") for k, p in g_)
+            ok_ = has(ft_.guards(r_diff), True) and len(zero) == 1 and has(ft_.guards(zero[0]), False)
+        ctx.check(ok_, "temporal:" + nm, "value-shape", f.loc(), nm + " = current cumulative - archived cumulative", nm + " returns " + str(last))
+
+
 def run(ctx):
     P, cg = ctx.prog, ctx.cg
     # ------------------------------------------------ cached accessors
@@ -352,25 +378,7 @@ def run(ctx):
     ctx.ok("archive-writers", "who-may-write", rf.loc(), "archive_ is written only by refresh()")
 
     # ------------------------------------------------ temporal getters
-    shapes = {
-        "getIoCostRate": r"^\(!this->archive_\.io_cost_cumulative(\.operator bool\(\))? \? 0(\.0)? : \(\*this->io_cost_cumulative\(nullptr\) - \*this->archive_\.io_cost_cumulative\)\)$",
-        "getPgScanRate": r"^\(\*this->pg_scan_cumulative\(nullptr\) - \*this->archive_\.pg_scan_cumulative\)$",
-    }
-    DIFF = {"getIoCostRate": r"^\(\*this->io_cost_cumulative\(nullptr\) - \*this->archive_\.io_cost_cumulative\)$",
-            "getPgScanRate": shapes["getPgScanRate"]}
-    for nm, rx in shapes.items():
-        f = ctx.fn1("Oomd::CgroupContext::" + nm)
-        last = [ret_text(f, r) for r in returns(f) if "archive_" in ret_text(f, r)]
-        ok_ = len(last) == 1 and re.match(rx, last[0]) is not None
-        if not ok_ and len(last) == 1 and re.match(DIFF[nm], last[0]) is not None and nm == "getIoCostRate":
-            # if/return spelling of the same table: the difference where an archived value exists, 0 where it does not
-            ft_ = Flow(P, f, cg=cg)
-            fld = "this->archive_.io_cost_cumulative"
-            r_diff = [r for r in returns(f) if "archive_" in ret_text(f, r)][0]
-            zero = [r for r in returns(f) if ret_text(f, r) in ("0", "0.0", "std::optional(0.0)", "std::optional(0)")]
-            has = lambda g_, pol: any(p is pol and k in (fld, fld + ".has_value()", fld + ".operator bool()") for k, p in g_)
-            ok_ = has(ft_.guards(r_diff), True) and len(zero) == 1 and has(ft_.guards(zero[0]), False)
-        ctx.check(ok_, "temporal:" + nm, "value-shape", f.loc(), nm + " = current cumulative - archived cumulative", nm + " returns " + str(last))
+    rate_definitions(ctx)
     ga = ctx.fn1("Oomd::CgroupContext::getAverageUsage")
     txt = " ".join(ret_text(ga, r) for r in returns(ga))
     X = Expander(P, ga)
@@ -448,6 +456,24 @@ def run(ctx):
     mm = ctx.fn1("Oomd::Fs::readMinMaxLowHighFromLines")
     lits = [nn.get("v", "") for nn in mm.nodes if nn["k"] == "lit" and nn.get("lk") == "str"]
     ctx.check("max" in lits, "max-grammar-parser", "value-shape", mm.loc(), "the shared parser recognises the literal 'max'", "shared parser has no 'max' case")
+    # raw integer statistics are parsed as integers: a reader that hands out 64-bit values never goes through floating point
+    # (a double holds 53 bits: limits above 2^53 would be rounded) nor through the config-size grammar (suffixes, fractions)
+    FLOATY = re.compile(r"^(std::sto(d|f|ld)|strto(d|f|ld)|atof|Oomd::Util::parseSize(OrPercent)?)$")
+    n_int = 0
+    for f in sorted(P.fns.values(), key=lambda x: x.line):
+        if not f.pq.startswith("Oomd::Fs::") or not f.cfg or not re.search(r"\b(u?int64_t|long|unsigned long)\b", f.d.get("ret", "")):
+            continue
+        if "ResourcePressure" in f.d.get("ret", ""):
+            continue
+        n_int += 1
+        ctx.use(f)
+        bad = [f.callee(i).split("(")[0] for i in f.calls() if FLOATY.match(f.callee(i).split("(")[0])]
+        bad += ["cast %s -> %s" % (n_.get("fromtw"), n_.get("tw")) for n_ in f.nodes if n_["k"] == "cast" and n_.get("ck") == "FloatingToIntegral"]
+        ctx.check(not bad, "raw-integers-parsed-exactly:" + short(f) + ("@%d" % f.line if f.pq.endswith("readFileByLine") else ""), "effect (no floating-point detour)", f.loc(),
+                  "64-bit values are converted with an integer parser", "%s converts a 64-bit statistic through %s: values above 2^53 are rounded (and the "
+                  "config-size grammar accepts suffixes / rejects values near INT64_MAX), so a raw value is no longer reported exactly" % (short(f), ", ".join(sorted(set(bad)))))
+    ctx.counters["int64_readers"] = n_int
+    ctx.floor("int64_readers", 10, "Fs readers that return 64-bit integer statistics")
     readdir_does_not_follow_links(ctx, "C15")
     # readDirFromDIR sibling agreement (shared with C10)
     readdir_classification(ctx, "C15")
